@@ -674,9 +674,11 @@ class KMIPProxy(object):
                                            | operation result.
         """
         # TODO (peter-hamilton) Push this into the Check request.
-        mask = 0
-        for m in cryptographic_usage_mask:
-            mask |= m.value
+        mask = None
+        if cryptographic_usage_mask is not None:
+            mask = 0
+            for m in cryptographic_usage_mask:
+                mask |= m.value
 
         operation = Operation(OperationEnum.CHECK)
         request_payload = payloads.CheckRequestPayload(
